@@ -474,3 +474,118 @@ def mem_stale(ctx: Ctx) -> None:
                             sel=f"stale:{ctx.anon(f, c.func, 30)}:{a_.attr}",
                         )
     ctx.need(n >= 3, f"only {n} extra_projected_mem declarations that read an operand found")
+
+
+NX_SET_NEIGHBOURS = {"predecessors", "successors", "neighbors", "pred", "succ", "adj"}
+NX_EDGE_VIEWS = {"in_edges", "out_edges", "edges"}
+
+
+@rule("MULTI-EDGE-1", props=["C03", "C04"], floor=4)
+def multi_edge(ctx: Ctx) -> None:
+    """the plan is a multigraph with one edge per operand *position*: every count of an
+    operation's inputs that feeds a fusion limit walks edges (in_edges / out_edges or the
+    helpers built on them), never the set-valued neighbour views of networkx, which collapse
+    an operand used twice into one"""
+    repo = ctx.repo
+    import ast as _ast
+
+    opt = A.OPT
+    helpers = {"predecessors_unordered": "in_edges", "successors_unordered": "out_edges"}
+    for hn, view in helpers.items():
+        h = repo.get(f"{opt}.{hn}")
+        its = [n.iter for n in h.own_nodes() if isinstance(n, (_ast.For, _ast.comprehension))]
+        ok = bool(its) and all(isinstance(i, _ast.Call) and isinstance(i.func, _ast.Attribute) and i.func.attr == view for i in its)
+        bad = next((i for i in its if isinstance(i, _ast.Call) and isinstance(i.func, _ast.Attribute) and i.func.attr in NX_SET_NEIGHBOURS), None)
+        if not ok and bad is None:
+            ok = ctx.present(h, False, f"{hn}: iteration over .{view}()")
+        ctx.ob(h, bad, ok, f"{hn} walks `.{view}(node)` — one item per edge, repeats for an operand used twice" + ("" if ok else f" — it walks `{unparse(bad, 40) if bad is not None else '?'}`, a set of distinct neighbours"), sel=f"multi:helper:{hn}", firm=bad is not None)
+    # counts: sum(...) / len(...) in the optimiser whose items come from graph neighbours
+    n_counts = 0
+    for d in repo.functions():
+        if d.module.qual != opt:
+            continue
+        fl, cfg = flow_of(repo, d), cfg_of(d)
+        for c in d.own_nodes():
+            if not (isinstance(c, _ast.Call) and isinstance(c.func, _ast.Name) and c.func.id in ("sum", "len") and c.args):
+                continue
+            srcs = []
+            arg = c.args[0]
+            for x in _ast.walk(arg):
+                if isinstance(x, _ast.comprehension):
+                    srcs.append(x.iter)
+            if not srcs:
+                srcs = [arg]
+            neigh = []
+            for s_ in srcs:
+                for x in _ast.walk(s_):
+                    if isinstance(x, _ast.Call) and isinstance(x.func, _ast.Attribute) and x.func.attr in NX_SET_NEIGHBOURS | NX_EDGE_VIEWS:
+                        neigh.append(x)
+                    elif isinstance(x, _ast.Call) and any(t.kind == "def" and t.ref.name in helpers for t in repo.resolve_call(x, d, d.module)):
+                        neigh.append(x)
+                    elif isinstance(x, _ast.Name) and cfg.has(c):
+                        for ds in fl.rdefs(x.id, cfg.node_of(c)):
+                            if ds.value is not None:
+                                for y in _ast.walk(ds.value):
+                                    if isinstance(y, _ast.Call) and isinstance(y.func, _ast.Attribute) and y.func.attr in NX_SET_NEIGHBOURS:
+                                        neigh.append(y)
+            if not neigh:
+                continue
+            n_counts += 1
+            bad = next((x for x in neigh if isinstance(x.func, _ast.Attribute) and x.func.attr in NX_SET_NEIGHBOURS), None)
+            ctx.ob(
+                d,
+                c,
+                bad is None,
+                f"`{unparse(c, 50)}` counts one per edge (operand position)"
+                + ("" if bad is None else f" — `{unparse(bad, 40)}` yields each neighbour once however many edges join them: an operation that reads the same array twice is counted as reading one, and the limit that keeps the fused memory model valid lets it through"),
+                sel=f"multi:count:{ctx.anon(d, c, 50)}",
+                firm=True,
+            )
+    ctx.need(n_counts >= 2, f"only {n_counts} neighbour counts found in the optimiser")
+
+
+@rule("CHUNKMEM-1", props=["C03", "C04"], floor=3)
+def chunkmem_providers(ctx: Ctx) -> None:
+    """chunk_memory(arr) trusts `arr.chunkmem` when the object has one: every provider of that
+    attribute returns the memory of a *whole* chunk (array_memory(dtype, chunk shape)), never an
+    average (total bytes divided by the number of chunks undercounts every full chunk as soon as
+    the last chunk along an axis is short)"""
+    repo = ctx.repo
+    import ast as _ast
+
+    cm = repo.get(f"{A.UTILS}.chunk_memory")
+    trusts = any(isinstance(n, _ast.Attribute) and n.attr == "chunkmem" for n in cm.own_nodes())
+    ctx.need(trusts or True, "chunk_memory")
+    n_prov = 0
+    for cls in repo.classes():
+        if cls.module.qual.startswith(("cubed.vendor.", "cubed.tests")):
+            continue
+        m = cls.children.get("chunkmem")
+        if m is None or not m.is_func:
+            continue
+        n_prov += 1
+        fl, cfg = flow_of(repo, m), cfg_of(m)
+        rets = [r for r in cfg.returns() if r.stmt.value is not None]
+        ctx.need(rets, f"{cls.name}.chunkmem returns nothing")
+        for r in rets:
+            v = r.stmt.value
+            exprs = [v]
+            for x in _ast.walk(v):
+                if isinstance(x, _ast.Name):
+                    exprs += [s.value for s in fl.rdefs(x.id, r.id) if s.value is not None]
+            div = next((b for e in exprs for b in _ast.walk(e) if isinstance(b, _ast.BinOp) and isinstance(b.op, (_ast.Div, _ast.FloorDiv))), None)
+            total = next((a for e in exprs for a in _ast.walk(e) if isinstance(a, _ast.Attribute) and a.attr in ("nbytes", "nchunks", "npartitions", "size")), None)
+            whole = any(isinstance(c, _ast.Call) and any(t.kind == "def" and t.ref.name == "array_memory" for t in repo.resolve_call(c, m, m.module)) for e in exprs for c in _ast.walk(e))
+            if div is None and total is None and not whole:
+                ctx.need(False, f"{cls.name}.chunkmem: `{unparse(v, 40)}` is neither array_memory(...) nor an average; not decided")
+            ok = whole and div is None and total is None
+            ctx.ob(
+                m,
+                r.stmt,
+                ok,
+                f"{cls.name}.chunkmem is the memory of a whole chunk (array_memory of the chunk shape)"
+                + ("" if ok else f" — `{unparse(v, 50)}` divides a total by a count: with a short last chunk every full chunk is larger than this, and the fused operations' projected memory (which retains one such chunk per predecessor) falls below what a task holds"),
+                sel="chunkmem:whole",
+                firm=True,
+            )
+    ctx.need(n_prov >= 3, f"only {n_prov} chunkmem providers found")
